@@ -222,8 +222,9 @@ func (t *Trie) PrefixSearch(key string) []string {
 				break
 			}
 
-			back := int(cur.depth + 1 - stack[last-1].depth)
-			buf.Truncate(buf.Len() - back)
+			// cut back to the prefix of the next frame's parent, in bytes
+			next := stack[last-1]
+			buf.Truncate(next.node.size - utf8.RuneLen(next.r))
 			continue
 		}
 
@@ -292,8 +293,9 @@ func (t *Trie) FuzzySearch(key string) []string {
 					break
 				}
 
-				back := int(cur.depth + 1 - stack[last-1].depth)
-				buf.Truncate(buf.Len() - back)
+				// cut back to the prefix of the next frame's parent, in bytes
+				next := stack[last-1]
+				buf.Truncate(next.node.size - utf8.RuneLen(next.r))
 				continue
 			}
 
